@@ -360,11 +360,11 @@ pub fn random_program(rng: &mut Rng, inject: u8) -> Program {
     for i in 0..n_ents {
         let file = rng.usize_below(n_files);
         let module = file_module[file];
-        let kind = match rng.below(10) {
+        let kind = match rng.below(12) {
             0..=3 => Kind::Struct,
             4 | 5 => Kind::Enum,
             6 | 7 => Kind::Alias,
-            8 => Kind::Interface,
+            8 | 9 | 10 => Kind::Interface,
             _ => Kind::Custom,
         };
         let name = format!("{}{}", match kind { Kind::Struct => "S", Kind::Enum => "E", Kind::Alias => "A", Kind::Interface => "I", Kind::Custom => "C" }, i);
@@ -395,7 +395,16 @@ pub fn random_program(rng: &mut Rng, inject: u8) -> Program {
                 doc = format!("/// Relates to {{@link {}::{}}}.\n", modules[ents[j].module], ents[j].name);
             }
         }
-        let attr = if deprecated { "[deprecated]\n" } else { "" };
+        let attr = if deprecated {
+            if rng.chance(1, 2) { "[deprecated(\"old\")]\n" } else { "[deprecated]\n" }
+        } else if rng.chance(1, 8) {
+            // silences uses of deprecated things inside this definition only
+            "[allow(Deprecated)]\n"
+        } else if rng.chance(1, 8) {
+            "[cs::attribute(\"x\")]\n"
+        } else {
+            ""
+        };
         let body = match kind {
             Kind::Struct => {
                 let nf = 1 + rng.usize_below(3);
@@ -408,9 +417,24 @@ pub fn random_program(rng: &mut Rng, inject: u8) -> Program {
                         fields.push(format!("    f{k}: {t}"));
                     }
                 }
-                format!("{doc}{attr}struct {name} {{\n{}\n}}\n", fields.join("\n"))
+                if rng.chance(1, 5) && fields.iter().all(|f| !f.contains("tag(")) {
+                    format!("{doc}{attr}compact struct {name} {{\n{}\n}}\n", fields.join("\n"))
+                } else {
+                    format!("{doc}{attr}struct {name} {{\n{}\n}}\n", fields.join("\n"))
+                }
             }
-            Kind::Enum => format!("{doc}{attr}enum {name} : int32 {{ {name}X = {}, {name}Y, {name}Z = {} }}\n", rng.below(5), 10 + rng.below(90)),
+            Kind::Enum => {
+                if rng.chance(1, 3) {
+                    // an enum with fields
+                    let t1 = type_expr(rng, &ents);
+                    let t2 = type_expr(rng, &ents);
+                    let unchecked = if rng.chance(1, 3) { "unchecked " } else { "" };
+                    format!("{doc}{attr}{unchecked}enum {name} {{\n    {name}A(a: {t1}, tag(1) b: string?)\n    {name}B\n    {name}C(c: {t2})\n}}\n")
+                } else {
+                    let under = *rng.pick(&["int32", "uint8", "int16", "varint32"]);
+                    format!("{doc}{attr}enum {name} : {under} {{ {name}X = {}, {name}Y, {name}Z = {} }}\n", rng.below(5), 10 + rng.below(90))
+                }
+            }
             Kind::Alias => {
                 let t = type_expr(rng, &ents);
                 if rng.chance(1, 2) {
@@ -423,7 +447,23 @@ pub fn random_program(rng: &mut Rng, inject: u8) -> Program {
                 let bases: Vec<String> = ents.iter().filter(|e| e.kind == Kind::Interface).filter(|_| rng.chance(1, 2)).map(|e| format!("{}::{}", modules[e.module], e.name)).collect();
                 let inherit = if bases.is_empty() { String::new() } else { format!(" : {}", bases.join(", ")) };
                 let t = type_expr(rng, &ents);
-                format!("{doc}{attr}interface {name}{inherit} {{\n    op{i}(p: {t}) -> {}\n}}\n", (*rng.pick(&prim)))
+                let t2 = type_expr(rng, &ents);
+                let t3 = type_expr(rng, &ents);
+                let ret = match rng.below(5) {
+                    0 => format!(" -> (r1: {t2}, r2: {})", (*rng.pick(&prim))),
+                    1 => format!(" -> Result<{t2}, {t3}>"),
+                    2 => format!(" -> stream {}", (*rng.pick(&prim))),
+                    3 => String::new(),
+                    _ => format!(" -> {}", (*rng.pick(&prim))),
+                };
+                let opdoc = match rng.below(4) {
+                    0 => format!("    /// Does {i}.\n    /// @param p: the input\n"),
+                    1 => format!("    /// @param nope: no such parameter\n"),
+                    _ => String::new(),
+                };
+                let idem = if rng.chance(1, 3) { "idempotent " } else { "" };
+                let second = if rng.chance(1, 2) { format!("\n    second{i}(tag(1) a: {}?, b: stream {})", (*rng.pick(&prim)), (*rng.pick(&prim))) } else { String::new() };
+                format!("{doc}{attr}interface {name}{inherit} {{\n{opdoc}    {idem}op{i}(p: {t}){ret}{second}\n}}\n")
             }
             Kind::Custom => format!("{doc}{attr}custom {name}\n"),
         };
@@ -484,7 +524,12 @@ pub fn random_program(rng: &mut Rng, inject: u8) -> Program {
         // a definition guarded by a symbol that only OTHER files may define: must never appear
         if rng.chance(1, 3) {
             let k = rng.below(3);
-            text.push_str(&format!("#if SYM{k}\nstruct Guarded{f}By{k} {{ g: bool }}\n#endif\n"));
+            let k2 = (k + 1) % 3;
+            match rng.below(3) {
+                0 => text.push_str(&format!("#if SYM{k}\nstruct Guarded{f}By{k} {{ g: bool }}\n#endif\n")),
+                1 => text.push_str(&format!("#if SYM{k} && (!SYM{k2})\nstruct Guarded{f}By{k} {{ g: bool }}\n#elif SYM{k2}\nstruct Guarded{f}By{k2} {{ h: bool }}\n#else\nstruct Unguarded{f} {{ u: bool }}\n#endif\n")),
+                _ => text.push_str(&format!("#if !(SYM{k} || SYM{k2})\nstruct Neither{f} {{ n: bool }}\n#endif\n")),
+            }
         }
         if rng.chance(1, 6) {
             text.push_str(&format!("#undef SYM{}\n", rng.below(3)));
